@@ -604,6 +604,7 @@ func runC12(c *vf.Ctx) {
 	g.cases = append(g.cases, c12Vectors()...)
 	g.hostile()
 	g.shapes()
+	g.histories()
 	g.mutations()
 	g.valid()
 	cases := g.cases
